@@ -317,8 +317,12 @@ def run(rep, tier, seed, replay):
     if res['violated']:
         raise core.Inconclusive('the design check of Reader.tla fails (%s): the specification of the current code '
                                 'violates C03 - not a verdict by itself, to be reproduced on the code' % res['violated'])
-    if thorough and res.get('zero_cov'):
-        raise core.Inconclusive('actions never taken in the design check: %s' % res['zero_cov'])
+    # RolList/AppList (list append as a separate step) exist only in the unrepaired split variant
+    # (cfg.atomic = FALSE): exercised by MC_Reader_seeded.cfg and by the simulated stimuli, not here
+    zero = sorted(set(res.get('zero_cov', [])) - {'MCRolStep'})
+    rep.cov['coverage_zero_actions'] = [z for z in rep.cov['coverage_zero_actions'] if not z.endswith(':MCRolStep')]
+    if thorough and zero:
+        raise core.Inconclusive('actions never taken in the design check: %s' % zero)
     res = _check('MC_Reader.tla', 'MC_Reader_live_thorough.cfg' if thorough else 'MC_Reader_live.cfg',
                          timeout=3000, workers=min(core.NCPU, 8))
     rep.add_design('MC_Reader(liveness)', res)
